@@ -19,6 +19,7 @@ Rec == ndJsonDeserialize(IOEnv.TRACE)
 Obs(r) == [err |-> r.err, n |-> r.rn, buf |-> r.buf, pos |-> r.pos]
 Judge(r) ==
     IF r.op = "print" THEN PrintOK(r) ELSE
+    IF r.op = "pipe" THEN PipeOK(r) ELSE
     /\ r.panic = ""
     /\ CASE r.op = "read_to_end"    -> ReadToEndOK(Obs(r), r.init, r.data, r.script)
          [] r.op = "read_to_string" -> ReadToStringOK(Obs(r), r.init, r.data, r.script)
@@ -53,7 +54,7 @@ Conforms == /\ calls = LC /\ bad = {}
                ELSE vec = Rec[line].buf
 Report == pc = "done" => PrintT(<<"T", line, Conforms>>)
 
-\* configuration for files that hold only "print" records (nothing to replay)
+\* configuration for files that hold only "print" / "pipe" records (nothing to replay)
 PInit == /\ line = 0
          /\ InitFor([op |-> "write_all", script |-> <<>>, data |-> <<>>, init |-> <<>>, cap0 |-> 0, n |-> 0, pieces |-> <<0>>, ff |-> 0])
 PNext == UNCHANGED <<vars, line>>
